@@ -1,7 +1,8 @@
 (* Hand-written model of the rotation-validity test that the SE3 constructor applies (and SE3.Delta therefore
    applies to the output of delta2tr):
      SE3.isvalid(T) = base.ishom(T, check=True, tol=100) -> base.isR(R, tol):
-        np.linalg.norm(R@R.T - np.eye(3)) < tol * _eps  and  np.linalg.det(R@R.T) > 0
+        np.linalg.norm(R@R.T - np.eye(3)) < tol * _eps  and  np.linalg.det(R) > 0
+   (det(R) since fix 8457767; before it the second test was det(R R') > 0, which every reflection passed)
    The tolerance is a parameter of the model; the value the constructor uses (ishom's default) is regenerated as
    isR_tol on every run, and the model at that value is tied to the implementation (SE3.isvalid) by the numeric
    correspondence m_isR of props/C13.py. *)
@@ -18,5 +19,5 @@ Definition frobsq33 (A : M33 T) : T :=
 Definition orth_resid (Rm : M33 T) : M33 T := msub33 O (mmul33 O Rm (mtr33 Rm)) (I33 O).
 Definition isR_model (tol : T) (Rm : M33 T) : bool :=
   ltb O (sqrt_ O (frobsq33 (orth_resid Rm))) (tol * eps O)
-  && ltb O (zero O) (det33 O (mmul33 O Rm (mtr33 Rm))).
+  && ltb O (zero O) (det33 O Rm).
 End Valid.
